@@ -52,13 +52,19 @@ GenId(pk, sc, xc) == "g_" \o pk.tag \o "_" \o sc.tag \o "_" \o xc.tag
 
 ExtFieldName(id, i) == CASE i = 1 -> "x1_" \o id [] i = 2 -> "x2_" \o id [] OTHER -> "x3_" \o id
 
-MkFile(id, pkg, locals, exts, deps) ==
-  [pkg  |-> pkg,
+(* pad: that many further messages Pad<i>_<id>, declared BEFORE everything else; unique to the file, so they
+   never collide and are left out of syms -- they only make the file's conflict check take long (C16: two
+   importers of colliding files must not both pass the check before either commits) *)
+MkFileP(id, pkg, locals, exts, deps, pad) ==
+  [pad  |-> pad,
+   pkg  |-> pkg,
    syms |-> {[n |-> pkg \o <<l.n>>, k |-> l.k] : l \in locals}
             \cup {[n |-> pkg \o <<"E" \o l.n \o "_" \o id>>, k |-> "enum"] : l \in {m \in locals : m.k = "enumval"}}
             \cup {[n |-> pkg \o <<ExtFieldName(id, i)>>, k |-> "ext"] : i \in 1..Len(exts)},
    exts |-> [i \in 1..Len(exts) |-> [e |-> exts[i].e, t |-> exts[i].t, ep |-> exts[i].ep]],
    deps |-> deps]
+
+MkFile(id, pkg, locals, exts, deps) == MkFileP(id, pkg, locals, exts, deps, 0)
 
 Gen(pk, sc, xc) ==
   MkFile(GenId(pk, sc, xc), pk.pkg, sc.syms, xc.exts,
@@ -71,7 +77,15 @@ Named ==
    c  |-> MkFile("c",  PkgPQ, {Loc("X", "xmsg")}, <<X1>>, <<>>),
    d2 |-> MkFile("d2", PkgP,  {Loc("D", "msg")}, <<X2>>, <<"c">>),
    e2 |-> MkFile("e2", PkgR,  {Loc("A", "msg")}, <<X2, G1>>, <<"c", "br">>),
-   h  |-> MkFile("h",  PkgR,  {Loc("H", "msg")}, <<>>, <<"d2">>)]
+   h  |-> MkFile("h",  PkgR,  {Loc("H", "msg")}, <<>>, <<"d2">>),
+   (* new sibling packages of p.q under p *)
+   s1 |-> MkFile("s1", <<"p", "r1">>, {Loc("S", "msg")}, <<>>, <<>>),
+   s2 |-> MkFile("s2", <<"p", "r2">>, {Loc("S", "msg")}, <<>>, <<>>),
+   s3 |-> MkFile("s3", <<"p", "r3">>, {Loc("S", "msg")}, <<M2>>, <<"bp">>),
+   s4 |-> MkFile("s4", <<"p", "r4">>, {Loc("S", "enumval")}, <<>>, <<>>),
+   (* two large files of one package that both declare p.Z, last *)
+   ba |-> MkFileP("ba", PkgP, {Loc("Z", "msg")}, <<>>, <<>>, 350),
+   bb |-> MkFileP("bb", PkgP, {Loc("Z", "msg"), Loc("Y", "msg")}, <<>>, <<>>, 350)]
 
 GenTriples == {<<pk, sc, xc>> \in PkgChoices \X SymChoices \X ExtChoices :
                  /\ pk.tag \in PkgTags /\ sc.tag \in SymTags /\ xc.tag \in ExtTags
